@@ -47,7 +47,7 @@ EXPECTED_PROBES = ["skip_name_at_depth_ge2", "skip_name_absent", "skip_name_is_a
 LEAF_KINDS = ["int", "float", "bool", "none", "str", "path", "list", "tuple", "dict", "set", "nd",
               "npscalar", "tensor", "module", "numseq"]
 TYPE_POOL = ["ndarray", "Tensor", "list", "tuple", "dict", "set", "str", "int", "float", "bool",
-             "Node", "Leaf", "Other", "Path", "Module"]
+             "Node", "Leaf", "Other", "Path", "Module", "Inner", "integer", "PosixPath"]
 C14_NAMES = ["a", "b", "c", "data", "_p", "x1", "info", "child", "p", "arr", "t", "k-1", "a.b",
              "ab", "arr2", "_p_", ".h", "fa"]
 
@@ -59,7 +59,8 @@ def _types(names):
 
     m = {"ndarray": np.ndarray, "Tensor": torch.Tensor, "list": list, "tuple": tuple, "dict": dict,
          "set": set, "str": str, "int": int, "float": float, "bool": bool, "Node": qm.Node,
-         "Leaf": qm.Leaf, "Other": qm.Other, "Path": pathlib.PurePath, "Module": torch.nn.Module}
+         "Leaf": qm.Leaf, "Other": qm.Other, "Path": pathlib.PurePath, "Module": torch.nn.Module,
+         "Inner": qm.Outer.Inner, "integer": np.integer, "PosixPath": pathlib.PosixPath}
     return [m[n] for n in names]
 
 
@@ -68,7 +69,7 @@ def setup():
 
 
 def _gen_tree(rng, opts, depth, maxdepth):
-    cls = rng.pick(["Plain", "Node", "Leaf", "Other", "Plain", "Node", "AttrsLike"]) if depth else \
+    cls = rng.pick(["Plain", "Node", "Leaf", "Other", "Plain", "Node", "AttrsLike", "Inner"]) if depth else \
         rng.pick(["Plain", "Node", "AttrsLike"])
     if cls == "AttrsLike":
         names = ["fa", "fb", "fc"]
@@ -114,7 +115,8 @@ def gen(rng: Rng, tier, i):
     form = r.pick(["list", "tuple", "bare" if len(S) == 1 else "list"])
     store = rng.pick(["zip", "dir"])
     return {"graph": g, "S": S, "S1": S1, "S2": S2, "T": T, "form": form, "store": store,
-            "mix_types_into_names": r.chance(0.15), "level": rng.pick([None, 0, 4, 9]),
+            "mix_types_into_names": r.chance(0.15), "h5_second": r.chance(0.3),
+            "level": rng.pick([None, 0, 4, 9]),
             "env": serio.gen_env(rng.fork("env"))}
 
 
@@ -273,9 +275,14 @@ def run(plan):
             h4 = do("H4", S, [], "h4", second=True)
             check("H4 save(skip=S);load();save();load()", "skip_generation", h4, rp_names)
         tys = T
-        h5 = do("H5", S if plan.get("mix_types_into_names") else [], [], "h5", types_at_save=tys)
-        both = removed_paths(graphs.build(spec), set(S) if plan.get("mix_types_into_names") else
-                             set(), T)
+        orig5 = graphs.build(spec)
+        both = removed_paths(orig5, set(S) if plan.get("mix_types_into_names") else set(), T)
+        # an attrs-style object that lost a field (by name or by type) cannot be saved again
+        attrs_lost_field = any(
+            getattr(type(_get(orig5, p_[:-1])), "__attrs_attrs__", None) is not None for p_ in both)
+        del orig5
+        h5 = do("H5", S if plan.get("mix_types_into_names") else [], [], "h5", types_at_save=tys,
+                second=plan.get("h5_second", False) and not attrs_lost_field)
         check("H5 save(skip=types);load()", "skip_types_at_save", h5, both)
         res["sched"].append(hashlib.blake2b(repr(E.sim.completion_sig).encode(),
                                             digest_size=6).hexdigest())
